@@ -109,6 +109,34 @@ def run(repo, res):
                   % (fi.qual, sorted(reads)),
                   sample='%s validated by a dependency-aware predicate: %s' % (key, ok))
 
+    # ---- R4 the predicate detects every change of the modification time ----------------------------------------
+    rets = [r for r in ast.walk(ch.node) if isinstance(r, ast.Return) and r.value is not None]
+    ok = False
+    shape = ''
+    for r in rets:
+        v = r.value
+        shape = unparse(v)
+        neg = False
+        if isinstance(v, ast.UnaryOp) and isinstance(v.op, ast.Not):
+            v, neg = v.operand, True
+        if isinstance(v, ast.Compare) and len(v.ops) == 1:
+            sides = {unparse(v.left), unparse(v.comparators[0])}
+            stored = any(x in ('self.mtime', 'self._mtime') for x in sides)
+            current = any('getmtime(' in x or 'st_mtime' in x for x in sides)
+            differs = (isinstance(v.ops[0], ast.NotEq) and not neg) or (isinstance(v.ops[0], ast.Eq) and neg)
+            ok = stored and current and differs
+        elif isinstance(v, ast.BoolOp) and isinstance(v.op, ast.Or):
+            # own change OR a dependency changed
+            ok = any(isinstance(x, ast.Compare) and isinstance(x.ops[0], ast.NotEq) and 'mtime' in unparse(x) for x in v.values)
+    res.check('C09-R4', 'validity predicate detects any change of mtime', ok, MODULE, ch.node.lineno,
+              'SourceModule.changed must be true whenever the modification time differs from the one seen at load time '
+              '(an edit may move the mtime backwards: restore, cp -p, rsync -t); it returns `%s`' % shape,
+              sample='changed = %s' % shape)
+    lm = [a for a in ast.walk(facts.classes['SourceModule'].methods['__init__'].node)
+          if isinstance(a, ast.Assign) and unparse(a.targets[0]) == 'self.mtime']
+    res.check('C09-R4', 'mtime recorded at load time', len(lm) == 1 and 'getmtime(filename)' in unparse(lm[0].value), MODULE,
+              lm[0].lineno if lm else 0, 'the modification time must be recorded when the module object is created', nontrivial=False)
+
     # ---- R2 every request runs inside the change-checking context -------------------------------------------
     srv = repo.klass(SERVER, 'Server')
     nreq = 0
